@@ -26,6 +26,8 @@ def main():
     pycommon.b_holes(chk, o, seeds.sample(chk.rng, ref, 80 if chk.quick else 1500), 2 if chk.quick else 0, wall=120 if chk.quick else 2400, name="B-holes k=1 on reference derivations")
     dels = pycommon.token_deletions(ref + [s for s in py if len(s) < 200])
     pycommon.k0_texts(chk, o, dels, "single-token deletions k=0", wall=150 if chk.quick else 1200, vac=("SyntaxError",))
+    cp = seeds.concat_product(True, 200 if chk.quick else 3000, chk.rng) + seeds.literal_product()
+    pycommon.k0_texts(chk, o, cp, "string concatenation product k=0", wall=150 if chk.quick else 900, vac=("ok", "SyntaxError"))
     ep = seeds.expr_product()
     pycommon.k0_texts(chk, o, ep, "expression kinds x positions k=0", wall=150 if chk.quick else 900, vac=("ok", "SyntaxError"))
     pycommon.indent_skeleton(chk, o, 5 if chk.quick else 6, pycommon.CORE_OPTS, wall=150 if chk.quick else 1500)
